@@ -1,1 +1,3 @@
 //! Shared simulators.
+pub mod driver;
+pub mod world;
